@@ -295,3 +295,46 @@ def outcomeName : Out Unit → String
   | .error (.other n) => n
 
 end Geff.Structure
+
+/-! ## `GeffReader.__init__` (`core_io/_base_read.py`) — the second observation point of C04 -/
+namespace Geff.Structure
+open Geff.Np Gen.Paths
+
+/-- `zarr.open_array(source, path=…, mode="r")`: a zarr error (neither a plain `ValueError` nor a
+plain `FileNotFoundError`) unless there is an array -/
+def openArrayPath (g : Grp) (path : List String) : Out Arr :=
+  match getPath g path with
+  | some (.array a) => pure a
+  | _ => throw (.other "zarr.errors.NodeNotFoundError")
+
+/-- `zarr.open_group(self.group.store, path=…, mode="r")` -/
+def openGroupPath (g : Grp) (path : List String) : Out Grp :=
+  match getPath g path with
+  | some (.group ch) => pure ch
+  | _ => throw (.other "zarr.errors.NodeNotFoundError")
+
+/-- `[*group.group_keys()]` -/
+def groupKeys (g : Grp) : List String :=
+  (g.filter fun kv => match kv.2 with | .group _ => true | .array _ => false).map (·.1)
+
+/-- the property names the reader offers: `[]` without a `props` member -/
+def readPropNames (graph parent : Grp) (path : List String) : Out (List String) :=
+  if (get parent PROPS).isSome then do            -- `_path.PROPS in nodes_group.keys()`
+    let props ← openGroupPath graph path
+    pure (groupKeys props)
+  else pure []
+
+/-- `GeffReader.__init__(source, validate)`; returns `(node_prop_names, edge_prop_names)` -/
+def readerInit (validate : Bool) (t : Target) : Out (List String × List String) := do
+  if validate then validateStructure t else pure ()
+  let graph ← openStorelike t
+  let _ ← readMetadata t
+  let _ ← openArrayPath graph [NODES, IDS]
+  let _ ← openArrayPath graph [EDGES, IDS]
+  let nodes ← expectGroup graph NODES
+  let nodeNames ← readPropNames graph nodes [NODES, PROPS]
+  let edges ← expectGroup graph EDGES
+  let edgeNames ← readPropNames graph edges [EDGES, PROPS]
+  pure (nodeNames, edgeNames)
+
+end Geff.Structure
